@@ -374,9 +374,19 @@ impl Sampled {
 
     /// distance from `q` to the curve: the coarse samples' local minima (best four), each refined by ternary search.
     fn dist_to(&self, q: V) -> f64 {
+        // a polyline is its own exact curve: the distance is the minimum over its segments (no sampling — a run of equal
+        // samples on a zero-length segment would otherwise crowd the true minimum out of the candidates)
+        if let Exact::Poly(ps) = &self.cv {
+            return if ps.len() == 1 {
+                norm(sub(ps[0], q))
+            } else {
+                ps.windows(2).map(|w| dist_point_seg(q, w[0], w[1])).fold(f64::INFINITY, f64::min)
+            };
+        }
         let d: Vec<f64> = self.pts.iter().map(|p| norm(sub(*p, q))).collect();
+        // local minima of the samples; of a plateau of equal values only its first sample is a candidate
         let mut mins: Vec<(f64, usize)> = (0..=NS)
-            .filter(|&i| (i == 0 || d[i] <= d[i - 1]) && (i == NS || d[i] <= d[i + 1]))
+            .filter(|&i| (i == 0 || d[i] < d[i - 1]) && (i == NS || d[i] <= d[i + 1]))
             .map(|i| (d[i], i))
             .collect();
         mins.sort_by(|a, b| a.0.partial_cmp(&b.0).unwrap());
